@@ -150,3 +150,30 @@ pub fn session_variants(r: &mut Rng, events: &mut Vec<Event>, rerun_den: u64, re
     }
     *events = out;
 }
+
+/// Caller-supplied rules that match broadly and ALWAYS decline, registered up front in a sixth of the runs of
+/// the model-judged checks: a rule that declines leaves the line as if the rule were absent, so every
+/// model-judged line must evaluate exactly as it does without them.
+pub fn decliner_variants(r: &mut Rng, events: &mut Vec<Event>) {
+    if !r.chance(1, 6) || events.is_empty() { return; }
+    let t0 = events[0].clock.base();
+    let pats: Vec<Vec<String>> = vec![
+        vec!["{NUMBER:n} {TEXT:w}".into(), "{TEXT:w} {NUMBER:n}".into()],
+        vec!["{MONEY:m} {TEXT:w}".into(), "{MONEY:m} {TEXT:w} {TEXT:v}".into()],
+        vec!["{DATE:d} {TEXT:w} {TEXT:v}".into(), "{DATE:d} {TEXT:w}".into()],
+        vec!["{TIME:t} {TEXT:w}".into(), "{TIME:t} {TEXT:w} {TEXT:v}".into()],
+        vec!["{PERCENT:p} {TEXT:w}".into(), "{DURATION:d} {TEXT:w}".into()],
+        vec!["{NUMBER:a} {NUMBER:b}".into()],
+    ];
+    let mut head: Vec<Event> = Vec::new();
+    let mut id = 950;
+    for p in pats.iter() {
+        if !r.chance(2, 3) { continue; }
+        for lang in ["en", "tr"] {
+            id += 1;
+            head.push(Event { actor: ADMIN, op: Op::Admin(AdminOp::AddRule { lang: lang.to_string(), rule: RuleSpec { id, name: format!("decliner{}", id), patterns: p.clone(), result: ResultSpec::Number(0.0), decline_num: 1, decline_den: 1, unwind_den: 0 } }), clock: ClockScript::Frozen { t: t0 } });
+        }
+    }
+    head.extend(events.drain(..));
+    *events = head;
+}
